@@ -146,6 +146,7 @@ theorem mem_retEvs (c : Nat) (sid : Option Nat) (w : Bool) (r : Res) (e : Ev) :
 @[simp] theorem step_ioPop (s : State) (b : Bool) : step s (.ioPop b) = doPop s b := rfl
 @[simp] theorem step_ioComplete (s : State) (sid : Nat) : step s (.ioComplete sid) = doComplete s sid := rfl
 @[simp] theorem step_ioFail (s : State) (sid : Nat) : step s (.ioFail sid) = doFail s sid := rfl
+@[simp] theorem step_timerClose (s : State) (sid : Nat) : step s (.timerClose sid) = doFail s sid := rfl
 @[simp] theorem step_ioPeerClose (s : State) (sid : Nat) : step s (.ioPeerClose sid) = doPeerClose s sid := rfl
 @[simp] theorem step_ioStep (s : State) : step s .ioStep = doIoStep s := rfl
 @[simp] theorem step_fence (s : State) : step s .fence = doFence s := rfl
